@@ -5,6 +5,10 @@
  the same context and connection buffers; without the option the values are correct and
  stable at least until the handler returns.
 
+ Shapes include "unmatched": a request no route matches is handled by the application's error
+ handler, a handler like any other (accessor "routepath": the path Route() reports for it).
+ The Churn step includes SendFile, which points the request at the file for a moment.
+
  Aliasing model: buffers are cells with a version number that every reuse bumps; an
  accessor either COPIES (the captured value is its own) or ALIASES a cell (the captured
  value is whatever the cell holds now).
